@@ -1,6 +1,6 @@
 (* C18 — what one step does to each request (effect characterisation of Model/Timeouts.step). *)
 From Coq Require Import ZArith Lia Bool List.
-From AV Require Import Lib.Base Generated.TimeoutsGen Generated.PoolGen Model.Timeouts.
+From AV Require Import Lib.Base Generated.TimeoutsGen Model.Timeouts.
 Open Scope Z_scope.
 
 Lemma upd_same f t v : upd f t v t = v.
